@@ -24,8 +24,11 @@ EXPLANATION = (
     'degrees; (R4) parameter templates by symbolic evaluation of the parser on token lists: point/text 2 coords, circle 2 coords '
     '+ length, line 4 coords, polygon coords, ellipse/box/annulus 2 coords then lengths with the last parameter of ellipse/box '
     'an angle, only ellipse lengths doubled, multi-radius lines expand into consecutive annuli, and the frame-name table is the '
-    'DS9 table; (R5) composite metadata is cleared when a line without "||" ends the composite. Not decided: tokenisation '
-    '(semicolon splitting, the metadata regex, optional parentheses/commas, case), verbatim text.')
+    'DS9 table; (R5) composite metadata is cleared when a line without "||" ends the composite; (R6) text and tags enclosed in {} "" '
+    '\'\' come out verbatim: the metadata lexer is partially evaluated (its regex, taken from the source, run by stdlib re; the '
+    'statements around it evaluated on the constants) on every delimiter pair x every foreign delimiter character x four '
+    'positions, and on mixed-case keys. Not decided: tokenisation of whole lines (semicolon splitting, optional '
+    'parentheses/commas).')
 TRUSTED = ['astropy Angle(str, unit) / Quantity(float, unit) parse as documented', 'str.split/strip/lower']
 ASSUMPTIONS = ['lines reach the raw parser one statement at a time (splitting is not decided)']
 
@@ -379,6 +382,48 @@ def r5(ctx):
         ctx.bad(raw.qualname.split(':')[1], 'composite-shape', 'composite lines are not handled as metadata-only', raw.loc())
 
 
+DELIMS = (('{', '}'), ('"', '"'), ("'", "'"))
+
+
+def r6(ctx):
+    """text in {} "" '' is kept verbatim: partial evaluation of the metadata lexer (its regex taken from the source and
+    run by stdlib re; the surrounding statements evaluated on the constants) on every delimiter pair x every foreign
+    delimiter character x position."""
+    m = ctx.model
+    lex = ds9.meta_lexer(m)
+    chars = ['{', '}', '"', "'"]
+    n = 0
+    for left, right in DELIMS:
+        foreign = [c for c in chars if c not in (left, right)] + (['{'] if left == '{' else [])
+        bad = []
+        for c in foreign:
+            for body in (f'a{c}b', f'{c}ab', f'ab{c}', f' a {c} '):
+                line = f'text={left}{body}{right} tag={left}{body}{right} tag={left}t2{right}'
+                got = Evaluator(m, hooks=ds9.regex_hooks()).call(lex, [Const(line)], {})
+                ok = isinstance(got, DictV) and not got.has_symbolic() and {'text', 'tag'} <= set(got.keys())
+                txt = got.get('text') if ok else None
+                tags = got.get('tag') if ok else None
+                tv = [i.v for i in tags.items] if isinstance(tags, Tup) and all(isinstance(i, Const) for i in tags.items) else None
+                n += 1
+                if not (isinstance(txt, Const) and txt.v == body and tv == [body, 't2']):
+                    bad.append((line, show(txt, 60), tv))
+        construct = f'text delimited by {left}{right}'
+        if bad:
+            line, txt, tv = bad[0]
+            ctx.bad(construct, 'not-verbatim',
+                    f'`{line}` is lexed as text={txt}, tags={tv}: the enclosed text is not kept verbatim '
+                    f'({len(bad)} of the probes for this delimiter pair differ)', lex.loc())
+        else:
+            ctx.ok(construct, f'{len(foreign) * 4} probes (foreign delimiter characters at start, middle, end, padded) verbatim')
+    # keys are case-insensitive, values are not
+    got = Evaluator(m, hooks=ds9.regex_hooks()).call(lex, [Const('TEXT={Ab Cd} Color=Red')], {})
+    if isinstance(got, DictV) and isinstance(got.get('text'), Const) and got.get('text').v == 'Ab Cd' \
+            and 'color' in got.keys() and got.get('color').v == 'Red':
+        ctx.ok('key case', 'keys lower-cased, values untouched')
+    else:
+        ctx.bad('key case', 'case', f'`TEXT={{Ab Cd}} Color=Red` is lexed as {show(got, 120)}', lex.loc())
+
+
 RULES = [
     RuleDef('R1', 'no region without a frame; frame state persistence', r1, 2),
     RuleDef('R1b', 'unsupported frame keywords all clear the active frame (keyword partition)', r1b, 3),
@@ -386,4 +431,5 @@ RULES = [
     RuleDef('R3', 'coordinate / size / angle lexing constants', r3, 5),
     RuleDef('R4', 'parameter templates per shape (symbolic parse), annulus expansion, frame names', r4, 27),
     RuleDef('R5', 'composite metadata state', r5, 2),
+    RuleDef('R6', 'text in {} "" \'\' is kept verbatim (lexer partially evaluated on delimiter probes)', r6, 4),
 ]
